@@ -228,7 +228,20 @@ def arena_immut(repo, res, tier, rule="ARENA-IMMUT"):
         res.check(len(ch) >= 2, "CONTROL", "CONTROL:arena-immut", f"control: {len(ch)} in-place arena edits flagged ({sorted(set(c.split('::')[-1] for _, c, *_ in ch))})", "")
 
 
+C02_CORES = {"dfa::dfa_from_regex", "regex::do_firstpos", "regex::do_lastpos", "regex::do_followpos", "regex::RegexNode::nullable"}
+
+
+def core_skips(repo, res):
+    """SKIPS over the Glushkov position sets and the subset construction: their loop exits, skipped elements and guarded updates
+    are the rows confirmed by reading against Dragon book 3.9 (tables/skips.toml)."""
+    from vlib import rules_skips as SK, tables
+
+    n = SK.skips_rule(repo, res, tables.load("skips")["row"], only=C02_CORES)
+    res.floor("SKIPS", n, 14)
+
+
 def run(repo, res, tier):
+    core_skips(repo, res)
     arena_immut(repo, res, tier)
     postorder(repo, res)
     n_tc = common.run_traversals(repo, res, flows=flows_table())
